@@ -184,7 +184,7 @@ def _eng(name):
     return run
 
 
-PROPS["C05"]["engines"] = {"quick": [_eng("memcheck-dispatch")], "thorough": [_eng("memcheck-dispatch"), _eng("asan-dispatch"), _eng("miri-dispatch")]}
+PROPS["C05"]["engines"] = {"quick": [_eng("regress-dispatch"), _eng("memcheck-dispatch")], "thorough": [_eng("regress-dispatch"), _eng("memcheck-dispatch"), _eng("asan-dispatch"), _eng("miri-dispatch")]}
 PROPS["C05"]["floors"]["quick"].update({"obs.unsafe_block_executions.free_path::calc_idx_sentinels": 100, "obs.unsafe_block_executions.free_path::add_blocking_trains": 100,
                                         "obs.unsafe_block_executions.free_path::find_train_intersect::single": 50, "obs.unsafe_block_executions.free_path::find_train_intersect::range": 20,
                                         "obs.unsafe_block_executions.free_path::find_train_intersect::check": 20})
